@@ -1380,6 +1380,44 @@ def ref_alistat_exact(rng, i):
             "ops": [op_file("in.sto", text), op_run("esl-alistat", args + ["in.sto"])] + cats}
 
 
+def ref_alistat_small_info(rng, i):
+    """esl-alistat --small (Pfam, one line per sequence) with the info files it supports: --list (written by esl_msafile2_ReadInfoPfam itself),
+    --icinfo / --rinfo / --cinfo (per-column counts collected by ReadInfoPfam) and --pcinfo (its PP counts): stdout and every file compared
+    byte for byte with the prediction = --small summary + the non-small reference's files on the same input"""
+    abc = rng.choice([DNA, "ACGU", AMINO])
+    nali = rng.choice([1, 1, 2, 3])
+    want_pp = rng.random() < 0.4
+    text = ""
+    for a in range(nali):
+        rows, _ = wide_rows(rng, abc=abc, nseq=rng.choice([1, 2, 3, 6, 9, 17]), alen=rng.choice([1, 2, 7, 30, 61, 130, 205]),
+                            gaps=rng.choice(["-", "-.", "-._"]))
+        alen = len(rows[0][1])
+        if rng.random() < 0.5:
+            extra = DEGEN[abc] + DEGEN[abc].lower()
+            rows = [(n, "".join(rng.choice(extra) if rng.random() < 0.12 else (c.lower() if rng.random() < 0.1 else c) for c in s_)) for n, s_ in rows]
+        rf = None
+        if rng.random() < 0.5:
+            rf = "".join(rng.choice("xX") if rng.random() < 0.7 else rng.choice(".-") for _ in range(alen))
+            if not any(c in "xX" for c in rf): rf = "x" + rf[1:]
+        name = rng.choice([None, "aln%d" % (a + 1), "a_long_alignment_name_%d" % (a + 1)])
+        grpp = None
+        if want_pp:
+            grpp = {k: "".join("." if c in "-._~" else rng.choice("0123456789*****") for c in s_) for k, (n, s_) in enumerate(rows) if rng.random() < 0.8}
+            if not grpp: grpp = {0: "".join("." if c in "-._~" else "*" for c in rows[0][1])}
+        text += sto_text_blocks(rows, max(1, alen), rf=rf, ident=name, grpp=grpp)
+    args = ["--small", ABCFLAG[abc], "--informat", "pfam"]
+    if rng.random() < 0.35: args.append("-1")
+    cats = []
+    for opt, f in (("--list", "l.out"), ("--icinfo", "ic.out"), ("--rinfo", "r.out"), ("--cinfo", "c.out")):
+        if rng.random() < 0.6:
+            args += [opt, f]; cats.append("cat name=" + f)
+    if want_pp and rng.random() < 0.8:
+        args += ["--pcinfo", "pc.out"]; cats.append("cat name=pc.out")
+    rng.shuffle(cats)
+    return {"name": "ref-alistat-small-info-%d" % i, "ref": True, "sticky": 1,
+            "ops": [op_file("in.sto", text), op_run("esl-alistat", args + ["in.sto"])] + cats}
+
+
 def _check_alistat_info(case, out):
     info = case["alistat_info"]; rows, rf, abc = info["rows"], info["rf"], info["abc"]
     def txt(l):
@@ -2607,7 +2645,7 @@ def sweep_cases(ctx):
     return out
 
 
-REF_GENERATORS = [("esl-alimerge", ref_alimerge), ("esl-compalign", ref_compalign), ("esl-alimask -p", ref_alimask_pp), ("multi-alignment files", ref_multi_ali), ("esl-compstruct", ref_compstruct), ("esl-alistat exact", ref_alistat_exact), ("esl-afetch exact", ref_afetch_exact), ("esl-reformat msa->fasta", ref_reformat_msa2fasta), ("esl-reformat hmmpgmd", ref_hmmpgmd), ("esl-sfetch afa", ref_sfetch_afa), ("esl-alistat info", ref_alistat_info), ("small modes", ref_small), ("esl-afetch -f", ref_afetch_multi), ("esl-alimask", ref_alimask), ("esl-alimanip", ref_alimanip), ("easel index", ref_index), ("easel filter", ref_filter), ("esl-weight", ref_weight), ("esl-afetch", ref_afetch), ("roundtrip", ref_roundtrip), ("esl-alistat", ref_alistat), ("esl-translate", ref_translate), ("esl-sfetch", ref_sfetch), ("esl-seqstat", ref_seqstat), ("esl-alirev", ref_alirev), ("esl-alipid", ref_alipid),
+REF_GENERATORS = [("esl-alistat --small info", ref_alistat_small_info), ("esl-alimerge", ref_alimerge), ("esl-compalign", ref_compalign), ("esl-alimask -p", ref_alimask_pp), ("multi-alignment files", ref_multi_ali), ("esl-compstruct", ref_compstruct), ("esl-alistat exact", ref_alistat_exact), ("esl-afetch exact", ref_afetch_exact), ("esl-reformat msa->fasta", ref_reformat_msa2fasta), ("esl-reformat hmmpgmd", ref_hmmpgmd), ("esl-sfetch afa", ref_sfetch_afa), ("esl-alistat info", ref_alistat_info), ("small modes", ref_small), ("esl-afetch -f", ref_afetch_multi), ("esl-alimask", ref_alimask), ("esl-alimanip", ref_alimanip), ("easel index", ref_index), ("easel filter", ref_filter), ("esl-weight", ref_weight), ("esl-afetch", ref_afetch), ("roundtrip", ref_roundtrip), ("esl-alistat", ref_alistat), ("esl-translate", ref_translate), ("esl-sfetch", ref_sfetch), ("esl-seqstat", ref_seqstat), ("esl-alirev", ref_alirev), ("esl-alipid", ref_alipid),
                   ("esl-seqrange", ref_seqrange), ("esl-selectn", ref_selectn), ("esl-mask", ref_mask),
                   ("esl-reformat", ref_reformat), ("esl-shuffle", ref_shuffle), ("easel downsample", ref_downsample)]
 
